@@ -274,4 +274,93 @@ def xor (u v : U256) : U256 := ⟨Nat.xor u.w3 v.w3, Nat.xor u.w2 v.w2, Nat.xor 
 def not (u : U256) : U256 := ⟨not64 u.w3, not64 u.w2, not64 u.w1, not64 u.w0⟩
 end U256
 
+/-! ## Constants, predicates, casts and thin wrappers (every remaining exported method)
+
+Receivers that the Go method ignores (`Zero`, `MaxValue`, `Set64`) are kept as an argument so that the
+signature is the one of the Go method. -/
+
+namespace U64
+/-- `Uint64.Zero` -/
+def zero (_u : U64) : U64 := ⟨0⟩
+/-- `Uint64.MaxValue`: `math.MaxUint64` -/
+def maxValue (_u : U64) : U64 := ⟨18446744073709551615⟩
+/-- `Uint64.IsZero` -/
+def isZero (u : U64) : Bool := u.w0 == 0
+/-- `Uint64.Uint64` (no-op cast) -/
+def toU64 (u : U64) : U64 := u
+/-- `Uint64.Uint128` -/
+def toU128 (u : U64) : U128 := ⟨0, u.w0⟩
+/-- `Uint64.Uint256` -/
+def toU256 (u : U64) : U256 := ⟨0, 0, 0, u.w0⟩
+/-- `Uint64.Set64` -/
+def set64 (_u : U64) (v : Nat) : U64 := ⟨v⟩
+/-- `Uint64.Add64(v, carryIn)` = `bits.Add64(u.w0, v.w0, carryIn)` : (value, carry).  `bits.Add64` documents
+"the carry input must be 0 or 1; otherwise the behavior is undefined". -/
+def add64 (u v : U64) (carryIn : Nat) : Nat × Nat := bitsAdd64 u.w0 v.w0 carryIn
+/-- `Uint64.Sub64(v, carryIn)` = `bits.Sub64(u.w0, v.w0, carryIn)` : (value, borrow), borrow-in 0 or 1 -/
+def sub64 (u v : U64) (carryIn : Nat) : Nat × Nat := bitsSub64 u.w0 v.w0 carryIn
+def equals (u v : U64) : Bool := u.cmp v == 0
+def lessThan (u v : U64) : Bool := u.cmp v < 0
+def greaterThan (u v : U64) : Bool := u.cmp v > 0
+def lessThanOrEqual (u v : U64) : Bool := !(u.greaterThan v)
+def greaterThanOrEqual (u v : U64) : Bool := !(u.lessThan v)
+/-- `Uint64.AsUint64` -/
+def asUint64 (u : U64) : Nat := u.w0
+end U64
+
+namespace U128
+def zero (_u : U128) : U128 := ⟨0, 0⟩
+def maxValue (_u : U128) : U128 := ⟨18446744073709551615, 18446744073709551615⟩
+/-- `Uint128.IsZero`: `u.w0 == 0 && u.w1 == 0` -/
+def isZero (u : U128) : Bool := u.w0 == 0 && u.w1 == 0
+/-- `Uint128.Uint64`: keeps the low limb (`log.Warnf` when `w1 ≠ 0`, no effect on the value) -/
+def toU64 (u : U128) : U64 := ⟨u.w0⟩
+def toU128 (u : U128) : U128 := u
+def toU256 (u : U128) : U256 := ⟨0, 0, u.w1, u.w0⟩
+def set64 (_u : U128) (v : Nat) : U128 := ⟨0, v⟩
+/-- `Uint128.Div`: `q, _ := u.QuoRem(v)` -/
+def div (u v : U128) : Except Unit U128 := do let (q, _) ← u.quoRem v; pure q
+/-- `Uint128.Mod`: `_, r := u.QuoRem(v)` -/
+def mod (u v : U128) : Except Unit U128 := do let (_, r) ← u.quoRem v; pure r
+/-- `Uint128.Div64`: `q, _ := u.QuoRem64(v)` -/
+def div64 (u : U128) (v : Nat) : Except Unit U128 := do let (q, _) ← u.quoRem64 v; pure q
+/-- `Uint128.Mod64`: `_, r := u.QuoRem64(v)` -/
+def mod64 (u : U128) (v : Nat) : Except Unit Nat := do let (_, r) ← u.quoRem64 v; pure r
+def equals (u v : U128) : Bool := u.cmp v == 0
+def lessThan (u v : U128) : Bool := u.cmp v < 0
+def greaterThan (u v : U128) : Bool := u.cmp v > 0
+def lessThanOrEqual (u v : U128) : Bool := !(u.greaterThan v)
+def greaterThanOrEqual (u v : U128) : Bool := !(u.lessThan v)
+def asUint64 (u : U128) : Nat := u.w0
+end U128
+
+namespace U256
+def zero (_u : U256) : U256 := ⟨0, 0, 0, 0⟩
+def maxValue (_u : U256) : U256 :=
+  ⟨18446744073709551615, 18446744073709551615, 18446744073709551615, 18446744073709551615⟩
+/-- `Uint256.Uint64`: keeps the low limb (`log.Warnf` when a higher limb is non-zero) -/
+def toU64 (u : U256) : U64 := ⟨u.w0⟩
+/-- `Uint256.Uint128`: keeps the two low limbs -/
+def toU128 (u : U256) : U128 := ⟨u.w1, u.w0⟩
+def toU256 (u : U256) : U256 := u
+def set64 (_u : U256) (v : Nat) : U256 := ⟨0, 0, 0, v⟩
+def equals (u v : U256) : Bool := u.cmp v == 0
+def asUint64 (u : U256) : Nat := u.w0
+end U256
+
+/-! ## `unint.go`: the generic constructors, instantiated at the three widths
+
+`ZeroUint[T]() = *new(T)` (the Go zero value: every limb 0), `OneUint[T]() = ZeroUint[T]().Set64(1)`,
+`From64[T](v) = ZeroUint[T]().Set64(v)`. -/
+
+def zeroUint64 : U64 := ⟨0⟩
+def zeroUint128 : U128 := ⟨0, 0⟩
+def zeroUint256 : U256 := ⟨0, 0, 0, 0⟩
+def from64_64 (v : Nat) : U64 := zeroUint64.set64 v
+def from64_128 (v : Nat) : U128 := zeroUint128.set64 v
+def from64_256 (v : Nat) : U256 := zeroUint256.set64 v
+def oneUint64 : U64 := zeroUint64.set64 1
+def oneUint128 : U128 := zeroUint128.set64 1
+def oneUint256 : U256 := zeroUint256.set64 1
+
 end ObiVerif.Fp
